@@ -29,10 +29,11 @@ type World struct {
 	Fset   *token.FileSet
 	SPkg   map[string]*ssa.Package
 	// all functions (including anonymous and instantiated generics) of the module
-	Funcs  []*ssa.Function
-	regs   []*Registration // cache
-	lisp   map[string]*LispFile
-	exprAt map[token.Pos]ast.Expr
+	Funcs    []*ssa.Function
+	regs     []*Registration // cache
+	lisp     map[string]*LispFile
+	exprAt   map[token.Pos]ast.Expr
+	regNames map[string]string
 }
 
 func loadWorld(repo string, tests bool, tags string, env []string) (*World, error) {
